@@ -640,7 +640,19 @@ func main() {
 
 	// decision trees of the handler-style functions (trees.go)
 	gt := genTrees(fm, []string{"Raft.requestVote", "Raft.requestPreVote", "Raft.persistVote", "Raft.configurationChangeChIfStable",
-		"Raft.timeoutNow", "Raft.setCurrentTerm", "Raft.compactLogsWithTrailing", "Raft.quorumSize", "Raft.checkRPCHeader"})
+		"Raft.timeoutNow", "Raft.setCurrentTerm", "Raft.compactLogsWithTrailing", "Raft.quorumSize", "Raft.checkRPCHeader"},
+		map[string]bool{})
+	gx := genTreesShared(fm, []string{"Raft.appendEntries", "Raft.installSnapshot"})
+	gxout := filepath.Join(os.Args[2], "GenTreesAE.v")
+	if old, _ := os.ReadFile(gxout); string(old) != gx {
+		if err := os.WriteFile(gxout, []byte(gx), 0o644); err != nil {
+			fmt.Fprintln(os.Stderr, err)
+			os.Exit(2)
+		}
+		fmt.Printf("GenTreesAE.v regenerated from %s: CHANGED\n", dir)
+	} else {
+		fmt.Printf("GenTreesAE.v regenerated from %s: unchanged\n", dir)
+	}
 	gout := filepath.Join(os.Args[2], "GenTrees.v")
 	gold, _ := os.ReadFile(gout)
 	if string(gold) != gt {
